@@ -93,6 +93,9 @@ pub struct Blk {
 }
 
 pub struct NoteInfo {
+    /// note commitment (leaf of the pool's tree) and its position on the current chain
+    pub cm: [u8; 32],
+    pub pos: u64,
     pub pool: Pool,
     pub value: u64,
     pub acct: u32,
@@ -340,7 +343,12 @@ impl Chain {
                 } else {
                     let id = self.next_note;
                     self.next_note += 1;
-                    self.notes.insert(id, NoteInfo { pool: o.pool, value: o.value, acct: o.acct, nf, tx: uid, index });
+                    let (cm, pos): ([u8; 32], u64) = match o.pool {
+                        Pool::Sapling => (ctx.outputs[index as usize].cmu.clone().try_into().unwrap(), (sizes[0] + index) as u64),
+                        Pool::Orchard => (ctx.actions[index as usize].cmx.clone().try_into().unwrap(), (sizes[1] + index) as u64),
+                        Pool::Ironwood => (ctx.ironwood_actions[index as usize].cmx.clone().try_into().unwrap(), (sizes[2] + index) as u64),
+                    };
+                    self.notes.insert(id, NoteInfo { cm, pos, pool: o.pool, value: o.value, acct: o.acct, nf, tx: uid, index });
                     id
                 };
                 abs.outs.push(AbsOut { note, pool: o.pool, value: o.value, acct: o.acct, internal: o.internal, index });
@@ -366,6 +374,12 @@ impl Chain {
         for (abs, ctx) in remined {
             let mut ctx = ctx.clone();
             ctx.index = (cb.vtx.len() + 1) as u64;
+            for o in &abs.outs {
+                if o.note > 0 {
+                    let base = match o.pool { Pool::Sapling => sizes[0], Pool::Orchard => sizes[1], Pool::Ironwood => sizes[2] };
+                    self.notes.get_mut(&o.note).unwrap().pos = (base + o.index) as u64;
+                }
+            }
             for out in &ctx.outputs {
                 sap.append(sap_node(&out.cmu));
                 sizes[0] += 1;
@@ -396,6 +410,23 @@ impl Chain {
         self.next_blk += 1;
         self.blocks.insert(height, Blk { height, uid, hash, cb, txs: abs_txs, sap, orch, iron, sizes });
         height
+    }
+}
+
+impl Chain {
+    /// The true root of a pool's note commitment tree as of the end of block `h`.
+    pub fn root_at(&self, pool: Pool, h: u32) -> Option<[u8; 32]> {
+        use incrementalmerkletree::Hashable;
+        let empty_s = || sapling::Node::empty_root(incrementalmerkletree::Level::from(sapling::NOTE_COMMITMENT_TREE_DEPTH)).to_bytes();
+        let empty_o = || MerkleHashOrchard::empty_root(incrementalmerkletree::Level::from(orchard::NOTE_COMMITMENT_TREE_DEPTH as u8)).to_bytes();
+        if h == self.base {
+            return Some(match pool { Pool::Sapling => empty_s(), _ => empty_o() });
+        }
+        self.blocks.get(&h).map(|b| match pool {
+            Pool::Sapling => b.sap.root().to_bytes(),
+            Pool::Orchard => b.orch.root().to_bytes(),
+            Pool::Ironwood => b.iron.root().to_bytes(),
+        })
     }
 }
 
